@@ -342,3 +342,28 @@ def region_nodes(ctx, f):
     for g in region(ctx, f):
         for n in walk_own(g.node):
             yield g, n
+
+
+def reaching_value(stmt, name):
+    """value of the nearest assignment `name = <expr>` that precedes `stmt`
+    in the same block with no compound statement that could re-bind the name
+    in between (straight-line reaching definition), else None"""
+    p = getattr(stmt, '_parent', None)
+    blk = None
+    for fld in ('body', 'orelse', 'finalbody'):
+        b = getattr(p, fld, None)
+        if isinstance(b, list) and any(x is stmt for x in b):
+            blk = b
+    if blk is None:
+        return None
+    i = [k for k, x in enumerate(blk) if x is stmt][0]
+    for j in range(i - 1, -1, -1):
+        st = blk[j]
+        if isinstance(st, ast.Assign) and len(st.targets) == 1 and \
+                isinstance(st.targets[0], ast.Name) and \
+                st.targets[0].id == name:
+            return st.value
+        if any(isinstance(x, ast.Name) and x.id == name and
+               isinstance(x.ctx, ast.Store) for x in ast.walk(st)):
+            return None
+    return None
